@@ -1,6 +1,6 @@
 import HH.Portable
 import HH.Proofs.Buffer
-import Std.Tactic.BVDecide
+import Mathlib.Tactic.IntervalCases
 /-!
 # The 164-byte checkpoint codec on abstract states (helper lemmas for C06, C11, C14)
 -/
@@ -42,13 +42,18 @@ theorem fromCheckpoint_abs (c : List (BitVec 8)) (hc : c.length = 164) :
     simp only [List.length_append, zeros, List.length_replicate]
     omega
 
+set_option maxRecDepth 8000 in
 theorem le64_toLE64 (x : BitVec 64) (rest : List (BitVec 8)) : le64 (toLE64 x ++ rest) = x := by
   simp only [le64, toLE64, List.cons_append, List.getD_cons_zero, List.getD_cons_succ]
-  bv_decide
+  ext i hi
+  simp only [BitVec.getElem_append, BitVec.getElem_extractLsb', BitVec.getLsbD_extractLsb', BitVec.getLsbD_append]
+  interval_cases i <;> simp
 
 theorem le32_toLE32 (x : BitVec 32) (rest : List (BitVec 8)) : le32 (toLE32 x ++ rest) = x := by
   simp only [le32, toLE32, List.cons_append, List.getD_cons_zero, List.getD_cons_succ]
-  bv_decide
+  ext i hi
+  simp only [BitVec.getElem_append, BitVec.getElem_extractLsb', BitVec.getLsbD_extractLsb', BitVec.getLsbD_append]
+  interval_cases i <;> simp
 
 theorem toLE64_length (x : BitVec 64) : (toLE64 x).length = 8 := rfl
 
@@ -68,8 +73,8 @@ theorem v4_bytes_length (v : V4) : (v.toList.flatMap toLE64).length = 32 := by
   simp [V4.toList, toLE64]
 
 theorem drop_v4 (v : V4) (rest : List (BitVec 8)) : List.drop 32 (v.toList.flatMap toLE64 ++ rest) = rest := by
-  rw [List.drop_append_of_le_length (by rw [v4_bytes_length]; exact Nat.le_refl _)]
-  rw [List.drop_of_length_le (by rw [v4_bytes_length]; exact Nat.le_refl _)]
+  rw [List.drop_append_of_le_length (Nat.le_of_eq (by rw [v4_bytes_length]))]
+  rw [List.drop_of_length_le (Nat.le_of_eq (by rw [v4_bytes_length]))]
   rfl
 
 theorem drop_v4_add (v : V4) (rest : List (BitVec 8)) (n : Nat) :
